@@ -153,10 +153,15 @@ theorem precomp_TabJ {a : XYZ} {A : CurvePt} (ha : Rp a A) (w : Nat) : TabJ (XYZ
     rw [show A + (j + 1) • (2 • A) = (2 * (j + 1) + 1) • A by module] at this
     exact this
 
-theorem preG_mags : Tables.preGAll.all entryMagOK = true := by decide +kernel
-theorem preG128_mags : Tables.preG128All.all entryMagOK = true := by decide +kernel
-theorem preG_len : Tables.preGAll.length = 4096 := by decide +kernel
-theorem preG128_len : Tables.preG128All.length = 4096 := by decide +kernel
+/-- one kernel evaluation per table: length, magnitudes of all 4096 entries, first entry -/
+theorem preG_facts : Tables.preGAll.length = 4096 ∧ Tables.preGAll.all entryMagOK = true ∧
+    (pts Tables.preGAll).head? = some Secp.G := by decide +kernel
+theorem preG128_facts : Tables.preG128All.length = 4096 ∧ Tables.preG128All.all entryMagOK = true ∧
+    (pts Tables.preG128All).head? = some g128 := by decide +kernel
+theorem preG_mags : Tables.preGAll.all entryMagOK = true := preG_facts.2.1
+theorem preG128_mags : Tables.preG128All.all entryMagOK = true := preG128_facts.2.1
+theorem preG_len : Tables.preGAll.length = 4096 := preG_facts.1
+theorem preG128_len : Tables.preG128All.length = 4096 := preG128_facts.1
 
 theorem all_getD_ok {l : List (List Nat)} (h : l.all entryMagOK = true) (i : Nat) (hi : i < l.length) :
     (XY.ofLimbs (l.getD i [])).ok := by
@@ -179,7 +184,7 @@ def G128c : CurvePt := (2 ^ 128) • Gc
 theorem preG_TabA : TabA preGXY Gc 4096 := by
   intro i hi
   refine ⟨all_getD_ok preG_mags i (by rw [preG_len]; exact hi), ?_⟩
-  have hhead : (pts Tables.preGAll).head? = some Secp.G := by decide +kernel
+  have hhead := preG_facts.2.2
   have h := chain_spec (Secp.dbl Secp.G) Secp.G (pts Tables.preGAll) preG_chain hhead i
     (by simp [pts, preG_len, hi])
   rw [pts_getD _ _ (by rw [preG_len]; exact hi)] at h
@@ -192,7 +197,7 @@ theorem preG_TabA : TabA preGXY Gc 4096 := by
 theorem preG128_TabA : TabA preG128XY G128c 4096 := by
   intro i hi
   refine ⟨all_getD_ok preG128_mags i (by rw [preG128_len]; exact hi), ?_⟩
-  have hhead : (pts Tables.preG128All).head? = some g128 := by decide +kernel
+  have hhead := preG128_facts.2.2
   have h := chain_spec (Secp.dbl g128) g128 (pts Tables.preG128All) preG128_chain hhead i
     (by simp [pts, preG128_len, hi])
   rw [pts_getD _ _ (by rw [preG128_len]; exact hi)] at h
@@ -301,10 +306,10 @@ theorem beta_cube : ((CurveConsts.beta : Nat) : F) ^ 3 = 1 := by
   push_cast at this
   exact this
 
-theorem mulLambda_x (a : XYZ) : (XYZ.mulLambda a).x = mul a.x feBeta := rfl
-theorem mulLambda_y (a : XYZ) : (XYZ.mulLambda a).y = a.y := rfl
-theorem mulLambda_z (a : XYZ) : (XYZ.mulLambda a).z = a.z := rfl
-theorem mulLambda_inf (a : XYZ) : (XYZ.mulLambda a).inf = a.inf := rfl
+theorem mulLambda_x (a : XYZ) : (XYZ.mulLambda a).x = mul a.x feBeta := by cases a; rfl
+theorem mulLambda_y (a : XYZ) : (XYZ.mulLambda a).y = a.y := by cases a; rfl
+theorem mulLambda_z (a : XYZ) : (XYZ.mulLambda a).z = a.z := by cases a; rfl
+theorem mulLambda_inf (a : XYZ) : (XYZ.mulLambda a).inf = a.inf := by cases a; rfl
 
 /-- `XYZ.mul_lambda` maps a curve point to a curve point (x ↦ β·x with β³ = 1) and keeps the contract -/
 theorem mulLambda_Rp {a : XYZ} (ha : a.ok) (hA : OnC a.toPoint) :
